@@ -60,6 +60,19 @@ impl Rat {
         let s = d.scale();
         Rat::new(BigInt::from(m), num_traits::pow(BigInt::from(10), s as usize))
     }
+    /// True iff the value has a finite decimal expansion (denominator of the reduced fraction is 2^a * 5^b).
+    pub fn is_finite_decimal(&self) -> bool {
+        let mut d = self.d.clone();
+        let two = BigInt::from(2);
+        let five = BigInt::from(5);
+        while (&d % &two).is_zero() {
+            d /= &two;
+        }
+        while (&d % &five).is_zero() {
+            d /= &five;
+        }
+        d.is_one()
+    }
     pub fn to_f64(&self) -> f64 {
         // good enough for display
         let n = self.n.to_f64().unwrap_or(f64::NAN);
